@@ -182,7 +182,7 @@ MCScen == [
 
 \* ---- defect classes of documents. Every class that concerns a verification method is crossed with the KIND of method
 \* (type x key material) it is applied to: "<class>@<kind>"; the plain class is the JsonWebKey2020 / EC method a Nuts node produces.
-BaseDefects == {"vm-id-no-fragment", "vm-id-foreign-prefix", "vm-id-duplicate", "vm-id-not-thumbprint", "vm-id-extended-did", "vm-id-kid-not-thumbprint", "vm-null", "vm-no-key", "vm-no-type", "vm-no-controller", "svc-id-no-fragment", "svc-id-foreign-prefix", "svc-id-extended-did", "svc-id-did-with-path", "svc-id-duplicate", "svc-type-duplicate", "svc-no-type", "svc-no-endpoint", "no-context", "capinv-embedded-foreign-id", "capinv-embedded-not-thumbprint", "capinv-unresolvable-ref", "not-json"}
+BaseDefects == {"vm-id-no-fragment", "vm-id-foreign-prefix", "vm-id-duplicate", "vm-id-not-thumbprint", "vm-id-extended-did", "vm-id-kid-not-thumbprint", "vm-null", "vm-null-referenced", "vm-no-key", "vm-no-type", "vm-no-controller", "svc-id-no-fragment", "svc-id-foreign-prefix", "svc-id-extended-did", "svc-id-did-with-path", "svc-id-duplicate", "svc-type-duplicate", "svc-no-type", "svc-no-endpoint", "no-context", "capinv-embedded-foreign-id", "capinv-embedded-not-thumbprint", "capinv-unresolvable-ref", "not-json"}
 VMDefects == {"vm-id-no-fragment", "vm-id-foreign-prefix", "vm-id-duplicate", "vm-id-not-thumbprint", "vm-id-extended-did",
               "vm-id-kid-not-thumbprint", "vm-no-key", "vm-no-controller"}
 VMKinds == {"EcdsaSecp256k1VerificationKey2019", "Ed25519VerificationKey2018", "Ed25519VerificationKey2018:base58",
